@@ -70,16 +70,31 @@ func (c *Config) MarshalBinary() ([]byte, error) {
 	})
 }
 
-func (c *Config) UnmarshalBinary(data []byte) error {
+func (c *Config) UnmarshalBinary(data []byte) (err error) {
 	if c.Group == nil {
 		return errors.New("config must be initialized using EmptyConfig")
 	}
+	// malformed input (e.g. null in place of a scalar, point or modulus) must yield an error, not a panic
+	defer func() {
+		if r := recover(); r != nil {
+			err = fmt.Errorf("config: malformed data: %v", r)
+		}
+	}()
 	cm := &configMarshal{
 		ECDSA:   c.Group.NewScalar(),
 		ElGamal: c.Group.NewScalar(),
 	}
 	if err := cbor.Unmarshal(data, &cm); err != nil {
 		return fmt.Errorf("config: %w", err)
+	}
+	if cm == nil || cm.ECDSA == nil || cm.ElGamal == nil || cm.P == nil || cm.Q == nil {
+		return errors.New("config: missing fields")
+	}
+	if err := cm.RID.Validate(); err != nil {
+		return fmt.Errorf("config: %w", err)
+	}
+	if err := cm.ChainKey.Validate(); err != nil {
+		return fmt.Errorf("config: chain key: %w", err)
 	}
 
 	// check ECDSA, ElGamal
@@ -94,7 +109,13 @@ func (c *Config) UnmarshalBinary(data []byte) error {
 	if err := paillier.ValidatePrime(cm.Q); err != nil {
 		return fmt.Errorf("config: prime Q: %w", err)
 	}
+	if cm.P.Eq(cm.Q) == 1 {
+		return errors.New("config: primes P and Q are equal")
+	}
 	paillierSecret := paillier.NewSecretKeyFromPrimes(cm.P, cm.Q)
+	if err := paillier.ValidateN(paillierSecret.PublicKey.N()); err != nil {
+		return fmt.Errorf("config: %w", err)
+	}
 
 	// handle public parameters
 	ps := make(map[party.ID]*Public, len(cm.Public))
@@ -110,8 +131,15 @@ func (c *Config) UnmarshalBinary(data []byte) error {
 			return fmt.Errorf("config: party %s: duplicate entry", p.ID)
 		}
 
+		if p.ECDSA == nil || p.ElGamal == nil || p.S == nil || p.T == nil {
+			return fmt.Errorf("config: party %s: missing fields", p.ID)
+		}
+
 		// handle our own key separately
 		if p.ID == cm.ID {
+			if err := pedersen.ValidateParameters(paillierSecret.PublicKey.N(), p.S, p.T); err != nil {
+				return fmt.Errorf("config: party %s: %w", p.ID, err)
+			}
 			ps[p.ID] = &Public{
 				ECDSA:    cm.ECDSA.ActOnBase(),
 				ElGamal:  cm.ElGamal.ActOnBase(),
@@ -121,6 +149,9 @@ func (c *Config) UnmarshalBinary(data []byte) error {
 			continue
 		}
 
+		if p.N == nil {
+			return fmt.Errorf("config: party %s: missing fields", p.ID)
+		}
 		if err := paillier.ValidateN(p.N); err != nil {
 			return fmt.Errorf("config: party %s: %w", p.ID, err)
 		}
